@@ -37,7 +37,9 @@ func Alphabet() []Spec {
 		{"B->D(fails)", func(e *Env) []*types.Transaction { return one(e.Transfer(B, D, 1e9)) }},
 		{"none(A)", func(e *Env) []*types.Transaction { return one(e.None(A)) }},
 		{"manage(A)", func(e *Env) []*types.Transaction { return one(e.Manage(A, ManageKey, "add", "v1")) }},
-		{"manage(E,no-privilege)", func(e *Env) []*types.Transaction { return one(e.Manage(E, ManageKey, "add", "v2")) }},
+		{"manage(A),manage(A)", func(e *Env) []*types.Transaction {
+			return []*types.Transaction{e.Manage(A, ManageKey, "add", "v1"), e.Manage(A, ManageKey, "add", "v2")}
+		}},
 		{"group[A->D,A->C]", func(e *Env) []*types.Transaction {
 			return e.Group([]int{A, A}, []int{D, C}, []int64{5, 6})
 		}},
